@@ -486,7 +486,13 @@ where
     #[inline]
     async fn on_heartbeat(&mut self) -> Result<Running, ConnectionInnerError> {
         match &self.connection.local_state() {
-            ConnectionState::Start | ConnectionState::CloseSent => return Ok(Running::Continue),
+            // Nothing is sent before the header exchange has started or after the local
+            // Close has been sent (with or without an error, pipelined or not)
+            ConnectionState::Start
+            | ConnectionState::CloseSent
+            | ConnectionState::Discarding
+            | ConnectionState::ClosePipe
+            | ConnectionState::OpenClosePipe => return Ok(Running::Continue),
             ConnectionState::End => return Ok(Running::Stop),
             _ => {}
         }
